@@ -1,0 +1,65 @@
+//! Verification hooks (cargo feature `verif`, off by default).
+//!
+//! With the feature off this module does not exist and no hook call is
+//! compiled. With the feature on, a hook does nothing until an external
+//! harness installs a [`Hook`]; a hook never changes a return value or a
+//! branch of the surrounding code.
+
+use std::{
+    future::Future,
+    pin::Pin,
+    sync::Arc,
+    task::{Context, Poll},
+};
+
+use parking_lot::RwLock;
+
+/// Callbacks a verification harness installs to observe / perturb executions.
+pub trait Hook: Send + Sync {
+    /// Called at a synchronous hook site (may sleep, spin or rendezvous).
+    fn point(&self, site: &'static str);
+
+    /// Called at an asynchronous hook site; returning `true` makes the site
+    /// return `Pending` exactly once (after waking itself).
+    fn should_yield(&self, site: &'static str) -> bool;
+}
+
+static HOOK: RwLock<Option<Arc<dyn Hook>>> = RwLock::new(None);
+
+/// Installs (or with `None` removes) the process-wide hook.
+pub fn install(hook: Option<Arc<dyn Hook>>) { *HOOK.write() = hook; }
+
+fn current() -> Option<Arc<dyn Hook>> { HOOK.read().clone() }
+
+/// Synchronous hook site.
+pub fn point(site: &'static str) {
+    if let Some(hook) = current() {
+        hook.point(site);
+    }
+}
+
+struct YieldOnce(bool);
+
+impl Future for YieldOnce {
+    type Output = ();
+
+    fn poll(mut self: Pin<&mut Self>, cx: &mut Context<'_>) -> Poll<()> {
+        if self.0 {
+            Poll::Ready(())
+        } else {
+            self.0 = true;
+            cx.waker().wake_by_ref();
+            Poll::Pending
+        }
+    }
+}
+
+/// Asynchronous hook site: yields to the scheduler once if the installed hook
+/// asks for it.
+pub async fn yield_point(site: &'static str) {
+    if let Some(hook) = current()
+        && hook.should_yield(site)
+    {
+        YieldOnce(false).await;
+    }
+}
